@@ -459,10 +459,18 @@ class Recorder:
 
     async def main(self) -> None:
         net = self.net
-        self.host = await net.add_host('h', '10.0.0.1', addr6='fe80::1', layout=self.sc.get('layout', 'single'))
+        early = self.sc.get('early_close')
+        self.host = await net.add_host('h', '10.0.0.1', addr6='fe80::1', layout=self.sc.get('layout', 'single'), wait_start=early is None)
         net.unreachable = set(self.sc.get('unreachable', []))
         net.on_send_failed_hook = lambda sock, data, addr: self._on_send({'dst': addr[0], 'port': addr[1], 'sock': sock.index, 'failed': True}, data)
         self.ev('start', layout=self.sc.get('layout', 'single'), nsock=len(self.host.sockets))
+        if early is not None:
+            # the application gives up during its own set-up: the instance is closed while it is still starting (its sockets are
+            # being set up by a task of the loop), `early` iterations of the loop after it was constructed
+            self.add_listener(0)
+            for _ in range(early):
+                await asyncio.sleep(0)
+            await self.api({'op': 'close'})
         for st in self.sc['steps']:
             op = st['op']
             if op == 'at':
@@ -515,7 +523,7 @@ class Recorder:
                 st2['op'] = 'reg'
                 self.bg.append(asyncio.ensure_future(self.api(st2)))
             elif op == 'raw':
-                if not self.closed:
+                if not self.closed or st.get('force'):
                     src = st.get('src', '10.0.0.9')
                     if self.sc.get('v6src'):
                         src = V6SRC.get(src, 'fe80::99')
@@ -1092,6 +1100,21 @@ def gen_c09(rng: random.Random, sid: str, thorough: bool = False) -> dict:
         steps.append({'op': 'at', 't': end})
     return {'id': sid, 'seed': rng.randint(0, 10 ** 9), 'steps': steps, 'layout': rng.choice(['single', 'split']),
             'rand': rng.choice([None, 'lo', 'hi'])}
+
+
+def gen_c17_early(rng: random.Random, sid: str) -> dict:
+    """Closed while still starting; afterwards datagrams arrive for every socket the instance would have had."""
+    layout = rng.choice(['single', 'split', 'dual'])
+    steps: List[dict] = [{'op': 'at', 't': 0}]
+    t = 0
+    for k in range(rng.choice([2, 4])):
+        t += rng.choice([0, 1, 500, 1100, 20000])
+        steps.append({'op': 'at', 't': t})
+        data = wire.build(flags=0x8400, answers=[('_http._tcp.local.', wire.T_PTR, 1, 4500, 'Late %d._http._tcp.local.' % k)])
+        # (sent to the socket whatever the instance says about itself: a closed socket receives nothing)
+        steps.append({'op': 'raw', 'data': data.hex(), 'src': '10.0.0.9', 'sock': k % {'single': 1, 'split': 2, 'dual': 3}[layout], 'force': True})
+    steps += [{'op': 'at', 't': t + 15000}, {'op': 'close'}, {'op': 'at', 't': t + 16000}]
+    return {'id': sid, 'seed': rng.randint(0, 10 ** 9), 'steps': steps, 'layout': layout, 'early_close': rng.choice([0, 0, 1, 2, 3, 5])}
 
 
 def gen_c17(rng: random.Random, sid: str, thorough: bool = False) -> dict:
